@@ -15,9 +15,9 @@ import os
 import re
 import common as C
 
-CLASSES = [None, None, "fetch_star", "fetch_comma", "fetch_star_first", "fetch_reversed", "fetch_beyond",
-           None, "search_star", "search_comma", "search_star_first", "search_reversed",
-           "search_beyond", "search_huge", "uidsearch_shape", None, None, "noop_notices", None]
+CLASSES = [None] * 19
+CLASSES[14] = "uidsearch_shape"
+CLASSES[17] = "noop_notices"
 MSG = "From: a@example.com\r\nTo: b@example.com\r\nSubject: t\r\n\r\nbody\r\n"
 
 # ---------------------------------------------------------------- ASTs
@@ -168,6 +168,8 @@ def add_set_probes(sc, rng, n_guess, kinds, asts):
             sc.step("search", {"s": s, "ast": ast}, [p, sc.cmd("SEARCH %s" % s)])
         elif kind == "uidsearch":
             sc.step("uidsearch", {"s": s, "ast": ast}, [p, sc.cmd("UID SEARCH UID %s" % s)])
+        elif kind == "searchuid":
+            sc.step("searchuid", {"s": s, "ast": ast}, [p, sc.cmd("SEARCH UID %s" % s)])
         elif kind == "uidfetch":
             sc.step("uidfetch", {"s": s, "ast": ast}, [p, sc.cmd("UID FETCH %s (UID)" % s)])
         elif kind == "store":
@@ -187,7 +189,7 @@ def add_set_probes(sc, rng, n_guess, kinds, asts):
             sc.step("uidcopy", {"s": s, "ast": ast}, [p, a, b, c])
 
 
-SET_KINDS = ["fetch", "search", "uidsearch", "uidfetch", "store", "uidstore", "copy", "uidcopy"]
+SET_KINDS = ["fetch", "search", "searchuid", "uidsearch", "uidfetch", "store", "uidstore", "copy", "uidcopy"]
 
 
 def build_history_scenario(rng, name, nprobes):
@@ -237,7 +239,7 @@ def build_history_scenario(rng, name, nprobes):
     for _ in range(nprobes):
         kind = rng.choice(SET_KINDS)
         if rng.random() < 0.85:
-            asts.append((kind, gen_ast(rng, n + 1, single=(kind in ("search",) and rng.random() < 0.6)), None))
+            asts.append((kind, gen_ast(rng, n + 1), None))
         else:
             raw = gen_malformed(rng).replace(" ", "").replace("\t", "")
             if raw and kind not in ("copy", "uidcopy"):
@@ -444,6 +446,11 @@ def case_of_step(kind, meta, R):
         if r["status"] != "OK" or r["search"] is None:
             return "(case_search %s %d [-1] %s)" % (s, n, ast)
         return "(case_search %s %d %s %s)" % (s, n, zl(r["search"]), ast)
+    if kind == "searchuid":
+        r = R[1]
+        if r["status"] != "OK" or r["search"] is None:
+            return "(case_searchuid %s %s [-1] %s)" % (s, zl(uids), ast)
+        return "(case_searchuid %s %s %s %s)" % (s, zl(uids), zl(r["search"]), ast)
     if kind == "uidsearch":
         r = R[1]
         if r["status"] != "OK" or r["search"] is None:
@@ -520,11 +527,11 @@ def run(chk):
         boxes.append((uids, cs))
     match_cases = []
     for _ in range(400 if quick else 3000):
-        tok = print_ast(gen_ast(rng, 9, single=True)) if rng.random() < 0.7 else gen_malformed(rng)
-        match_cases.append((tok.upper(), rng.randint(0, 12)))
+        tok = print_ast(gen_ast(rng, 9, single=(rng.random() < 0.4))) if rng.random() < 0.7 else gen_malformed(rng)
+        match_cases.append((tok.upper(), rng.randint(0, 12), rng.randint(0, 12)))
     ops = [{"op": "c09_sets", "boxes": [{"uids": u, "cases": [[k, C.latin(s.encode("latin-1"))] for (k, s, _) in cs]} for (u, cs) in boxes]},
-           {"op": "batch", "fn": "isSequenceSet", "cases": [{"a": [C.latin(t.encode("latin-1"))]} for (t, _) in match_cases]},
-           {"op": "batch", "fn": "matchesSequenceSet", "cases": [{"a": [C.latin(t.encode("latin-1"))], "n": [i]} for (t, i) in match_cases]}]
+           {"op": "batch", "fn": "isSequenceSet", "cases": [{"a": [C.latin(t.encode("latin-1"))]} for (t, _, _) in match_cases]},
+           {"op": "batch", "fn": "matchesSequenceSet", "cases": [{"a": [C.latin(t.encode("latin-1"))], "n": [i, g]} for (t, i, g) in match_cases]}]
     res = C.run_ops(ops, timeout=600)
     if res.get("crashed") or "rs" not in res["obs"][0]:
         chk.broken_obligation("driver failed on the C09 direct-call suite: %s" % str(res)[:600])
@@ -539,13 +546,13 @@ def run(chk):
             else:
                 term = "(case_uid %s %s %s %s)" % (cstr(s), zl(uids), zl(r), coq_ast(ast))
             cases.append((term, "seqset", kind, {"set": s, "uids": uids, "impl": r, "ast": ast}))
-    for (tok, i), a, b in zip(match_cases, res["obs"][1]["rs"], res["obs"][2]["rs"]):
+    for (tok, i, g), a, b in zip(match_cases, res["obs"][1]["rs"], res["obs"][2]["rs"]):
         if isinstance(a, dict) or isinstance(b, dict):
             chk.violation("SEARCH set matcher panicked on %r" % tok, {"suite": "seqset", "kind": "match", "tok": tok, "i": i})
             continue
         if any(ord(ch) > 127 for ch in tok):
             continue   # ToUpper domain edge (non-ASCII), outside the modelled domain
-        cases.append(("(case_match %s %d %s %s)" % (cstr(tok), i, C.coq_bool(a), C.coq_bool(b)), "seqset", "match", {"tok": tok, "i": i, "impl": [a, b]}))
+        cases.append(("(case_match %s %d %d %s %s)" % (cstr(tok), i, g, C.coq_bool(a), C.coq_bool(b)), "seqset", "match", {"tok": tok, "i": i, "largest": g, "impl": [a, b]}))
 
     # ---------------- suite numbering: sessions
     scs = corpus_scenarios(rng)
@@ -634,7 +641,7 @@ def run(chk):
         if not spec_ok:
             nd += 1
             what = "%s/%s: the implementation's answer violates the C09 specification" % (suite, kind)
-            if kind in ("fetch", "search", "uidsearch", "copy", "store", "uidstore", "uidfetch", "uidexpunge", "junk"):
+            if kind in ("fetch", "search", "searchuid", "uidsearch", "copy", "store", "uidstore", "uidfetch", "uidexpunge", "junk"):
                 what += " for set %r on a mailbox %s" % (payload.get("meta", payload).get("s", payload.get("set")), [u for (_, u, _) in (payload.get("state") or [])] or payload.get("uids"))
             elif kind == "noop":
                 what += ": NOOP notices after another session expunged %r of %d" % (payload["meta"]["dels"], payload["meta"]["k"])
